@@ -7,6 +7,7 @@ type vw = { exts : (int * int) list; ops : op list; data : int list }
 type case = vw array   (* a, b, c *)
 
 let has_ge = ref false   (* set by --has-ge: the library defines >= for rank >= 2 *)
+let rank0 = ref false    (* set by --rank0: comparisons between rank-0 arrays compile, generate some *)
 let names = [| "a"; "b"; "c" |]
 let base_of k = 10000 * k
 
@@ -36,7 +37,7 @@ let run_case (id : string) (c : case) (obs : Buffer.t) : bool =
       (fun (p, q) ->
         let a = vs.(p) and b = vs.(q) in
         let bits = b01 (v_eq a b m) ^ b01 (v_ne a b m) ^ b01 (v_lt a b m) ^ b01 (v_le a b m) ^ b01 (v_gt a b m)
-                   ^ (if rank = 1 || !has_ge then b01 (v_ge a b m) else "-") in
+                   ^ (if rank <= 1 || !has_ge then b01 (v_ge a b m) else "-") in
         (* views, owning copies, mixed: one value, whatever the layout or ownership *)
         let en = b01 (v_eq a b m) ^ b01 (v_ne a b m) in
         pr (Printf.sprintf "C %s %s%s view=%s array=%s mixed=%s" id names.(p) names.(q) bits (String.sub bits 0 5) (en ^ en ^ en ^ en)))
@@ -86,8 +87,16 @@ let derive (s1 : int list) (c1 : int list) (s2 : int list) : int list =
   if n2 > 0 && chance 50 then c2.(rnd n2) <- rnd 3;
   Array.to_list c2
 
+let gen_case0 () : case * string list =
+  let x = rnd 3 in
+  let y = if chance 40 then x else rnd 3 in
+  let w = if chance 30 then x else rnd 3 in
+  let mk v = { exts = []; ops = []; data = [ v ] } in
+  ([| mk x; mk y; mk w |], [ "rank0"; "same_sizes_ab"; (if x = y then "equal_ab" else "unequal_ab"); "nonempty" ])
+
 let gen_case () : case * string list =
-  let r = weighted [ (3, 1); (4, 2); (3, 3) ] in
+  if !rank0 && chance 4 then gen_case0 () else
+  let r = weighted [ (6, 1); (8, 2); (6, 3); (1, 4) ] in
   let sa = List.init r (fun _ -> weighted [ (1, 0); (3, 1); (4, 2); (3, 3) ]) in
   let ca = List.init (prod sa) (fun _ -> rnd 3) in
   (* same element count, different inner extents, same flat contents: == must still see the difference *)
